@@ -53,15 +53,15 @@ Definition slot_bytes (t : slot) : list byte := firstn (st_size t) (skipn (st_st
 
 Inductive chain_ok (m : shm) : nat -> list nat -> list byte -> Prop :=
 | ch_last o t : slot_at m o = Some t -> st_hasnext t = false -> 0 < st_size t ->
-    st_start t + st_size t <= length (st_data t) -> chain_ok m o [o] (slot_bytes t)
+    st_start t + st_size t <= length (st_data t) -> st_start t = 0 -> chain_ok m o [o] (slot_bytes t)
 | ch_next o t ids bytes : slot_at m o = Some t -> st_hasnext t = true ->
-    st_start t + st_size t <= length (st_data t) -> chain_ok m (st_next t) ids bytes ->
+    st_start t + st_size t <= length (st_data t) -> chain_ok m (st_next t) ids bytes -> st_start t = 0 ->
     chain_ok m o (o :: ids) (slot_bytes t ++ bytes).
 
 Lemma chain_ok_frame m m' o ids bytes : (forall x, In x ids -> slot_at m' x = slot_at m x) ->
   chain_ok m o ids bytes -> chain_ok m' o ids bytes.
 Proof.
-  intros Hf H. induction H as [o t H1 H2 H3 H4|o t ids bytes H1 H2 H3 H4 IH].
+  intros Hf H. induction H as [o t H1 H2 H3 H4 H5|o t ids bytes H1 H2 H3 H4 IH H5].
   - apply ch_last; auto. rewrite Hf by (left; reflexivity). exact H1.
   - apply ch_next; auto; [rewrite Hf by (left; reflexivity); exact H1|]. apply IH. intros x Hx. apply Hf. right. exact Hx.
 Qed.
@@ -116,7 +116,7 @@ Proof.
   induction ss as [|s r IH]; intros m k Hlen Hok Hshm Hnd Hlast; [discriminate|].
   inversion Hok as [|? ? Hs Hr]; subst. inversion Hshm as [|? ? Es Hshm']; subst.
   rewrite (offs_cons_shm s r Es) in *. inversion Hnd as [|? ? Hnotin Hnd']; subst.
-  destruct Hs as [S1 [S2 [S3 [S4 S5]]]]. destruct (S5 Es) as [t [Ht [Hc Hn]]].
+  destruct Hs as [[S1 S1'] [S2 [S3 [S4 S5]]]]. destruct (S5 Es) as [t [Ht [Hc Hn]]].
   assert (Hbody : forall t', st_data t' = st_data t -> st_size t' = ssize s -> st_start t' = start s ->
                              slot_bytes t' = body m s).
   { intros t' D1 D2 D3. unfold slot_bytes, body. rewrite D1, D2, D3, <- S1. rewrite (sdata_slot m s Es), Ht. reflexivity. }
@@ -131,6 +131,7 @@ Proof.
     + exact Hn.
     + exact Hlast.
     + cbn [t' hdr_stamp st_start st_size st_data]. unfold ssize. lia.
+    + exact S1'.
   - cbn [length] in Hlen. destruct k as [|k]; [lia|].
     set (m1 := upd_slot (upd_slot m (off s) (hdr_stamp (ssize s) (start s))) (off s) (hdr_link (off s'))).
     set (t' := hdr_link (off s') (hdr_stamp (ssize s) (start s) t)).
@@ -151,6 +152,7 @@ Proof.
     + reflexivity.
     + cbn [t' hdr_link hdr_stamp st_start st_size st_data]. unfold ssize. lia.
     + exact Hch.
+    + exact S1'.
 Qed.
 
 Lemma stamp_store_ok : forall ss m stop, store_ok m -> (forall x, In x (offs ss) -> ~ In x (frees m)) -> store_ok (stamp m ss stop).
@@ -188,7 +190,7 @@ Record done_ok (m : shm) (l : lbuf) (m1 : shm) : Prop := {
 Lemma done_chain m l : wpre m l -> fromshm l = true -> (0 < len l)%Z ->
   exists m1, lb_done m l = Ok (m1, l) /\ done_ok m l m1 /\ slices l <> [].
 Proof.
-  intros [Hok [[W1 W2 W3 W4 W5 W6] Hown]] Hf Hlen.
+  intros [Hok [[W1 W2 W3 W4 W5 W6 W7] Hown]] Hf Hlen.
   assert (Hne : slices l <> []).
   { intros E. unfold content in W3. rewrite E in W3. cbn in W3. lia. }
   unfold lb_done. rewrite Hf. destruct (wpos l) as [|i|] eqn:Ewp; [congruence| |contradiction].
@@ -209,13 +211,23 @@ Qed.
 
 Lemma underlying_content m l : WB m l -> underlying m l = content m l.
 Proof.
-  intros [W1 W2 W3 W4 W5 W6]. unfold underlying, content. destruct (wpos l) as [|i|]; [reflexivity| |contradiction].
+  intros [W1 W2 W3 W4 W5 W6 W7]. unfold underlying, content. destruct (wpos l) as [|i|]; [reflexivity| |contradiction].
   rewrite firstn_all2 by lia. reflexivity.
 Qed.
 
 (* ---------------------------------------------------------------------------------------- *)
 (* moveTo: re-reading one chain                                                              *)
 (* ---------------------------------------------------------------------------------------- *)
+(* the write pointer of a receive buffer is its last slice (appendBufferSlice sets it, popFront keeps it) *)
+Definition rwp (l : lbuf) : Prop := slices l = [] \/ wpos l = WAt (length (slices l) - 1).
+Definition start0 (ss : list slice) : Prop := Forall (fun s => start s = 0) ss.
+
+Lemma rwp_append l s : rwp (append_slice l s).
+Proof.
+  right. unfold append_slice. destruct (shmf s); cbn [wpos slices set_wpos set_len set_fromshm push_back set_slices];
+    rewrite app_length; cbn [length]; f_equal; lia.
+Qed.
+
 Record moved (m : shm) (l : lbuf) (ids : list nat) (bytes : list byte) (m' : shm) (l' : lbuf) : Prop := {
   mv_wf : WF m' l';
   mv_content : content m' l' = content m l ++ bytes;
@@ -230,7 +242,9 @@ Record moved (m : shm) (l : lbuf) (ids : list nat) (bytes : list byte) (m' : shm
   mv_slots : Forall (recyclable m) (slices l) -> Forall (recyclable m') (slices l');
   mv_prefix : exists app, slices l' = slices l ++ app;
   mv_pin : pinned l' = pinned l; mv_curp : curp l' = curp l; mv_rec : recycled l' = recycled l;
-  mv_leases : leases l' = leases l }.
+  mv_leases : leases l' = leases l;
+  mv_start : start0 (slices l) -> start0 (slices l');
+  mv_rwp : rwp l -> rwp l' }.
 
 Lemma ssize_slot o t : ssize (slice_of_slot o t) = st_size t.
 Proof. unfold ssize, slice_of_slot. cbn. lia. Qed.
@@ -279,7 +293,7 @@ Proof.
     destruct (append_slice_fields l s eq_refl) as [F1 _].
     split; [exact G1|]. split; [unfold l1; rewrite G2; unfold s; rewrite (body_slot m o t Ht); reflexivity|]. split; [exact F1|].
     unfold l1. rewrite F1, offs_app. reflexivity. }
-  inversion Hch as [o' t Ht Hn Hsz Hb|o' t ids' bytes' Ht Hn Hb Hrest]; subst.
+  inversion Hch as [o' t Ht Hn Hsz Hb Hst0|o' t ids' bytes' Ht Hn Hb Hrest Hst0]; subst.
   - (* last slice of the chain: non-empty, no next *)
     unfold slot_at in Ht. rewrite Ht. fold (slot_at m o) in Ht. rewrite ssize_slot.
     destruct (Nat.eqb_spec (st_size t) 0) as [|_]; [lia|]. rewrite Hn.
@@ -292,6 +306,8 @@ Proof.
     + apply cap_stable_refl.
     + intros Hs. rewrite G3. apply Forall_app. split; [exact Hs|]. constructor; [|constructor]. intros _. exists t. split; [exact Ht|reflexivity].
     + eexists. exact G3.
+    + intros Hs. unfold start0. rewrite G3. apply Forall_app. split; [exact Hs|constructor; [exact Hst0|constructor]].
+    + intros _. apply rwp_append.
   - unfold slot_at in Ht. rewrite Ht. fold (slot_at m o) in Ht. rewrite ssize_slot.
     set (s := slice_of_slot o t).
     destruct (Hdis o (or_introl eq_refl)) as [Hofree Holist].
@@ -309,7 +325,7 @@ Proof.
         -- rewrite Esl. cbn. tauto.
         -- rewrite Esl. constructor.
         -- cbn [length] in Hfuel. lia.
-        -- exists m', l'. split; [exact Hrun|]. destruct M as [M1 M2 M3 M4 Mm M5 M6 M7 M8 Mc Ms M9 M10 M11 M12 M13].
+        -- exists m', l'. split; [exact Hrun|]. destruct M as [M1 M2 M3 M4 Mm M5 M6 M7 M8 Mc Ms M9 M10 M11 M12 M13 Mst Mrw].
            constructor; auto.
            ++ rewrite M2. rewrite (content_same _ _ _ (same_data_recycle m s)). reflexivity.
            ++ intros x. rewrite M3, R1, cnt_cons. cbn [s slice_of_slot off]. lia.
@@ -344,7 +360,7 @@ Proof.
            assert (o <> x) by (intros ->; contradiction). cbn [s slice_of_slot off]. rewrite ind_diff by exact H. change (frees m0) with (frees m). lia.
         -- exact Hshm.
         -- cbn [length] in Hfuel. lia.
-        -- exists m', l'. split; [exact Hrun|]. destruct M as [M1 M2 M3 M4 Mm M5 M6 M7 M8 Mc Ms M9 M10 M11 M12 M13].
+        -- exists m', l'. split; [exact Hrun|]. destruct M as [M1 M2 M3 M4 Mm M5 M6 M7 M8 Mc Ms M9 M10 M11 M12 M13 Mst Mrw].
            constructor; auto.
            ++ rewrite M2. rewrite (content_same _ _ _ Hsd1). reflexivity.
            ++ intros x. rewrite M3, R1, cnt_cons. cbn [s slice_of_slot off]. change (frees m0) with (frees m). lia.
@@ -365,7 +381,7 @@ Proof.
       * intros x Hx. rewrite G4 in Hx. apply in_app_or in Hx. destruct Hx as [Hx|[<-|[]]]; [apply Hlf; exact Hx|exact Hofree].
       * rewrite G3. apply Forall_app. split; [exact Hshm|constructor; [reflexivity|constructor]].
       * cbn [length] in Hfuel. lia.
-      * exists m', l'. split; [exact Hrun|]. destruct M as [M1 M2 M3 M4 Mm M5 M6 M7 M8 Mc Ms M9 M10 M11 M12 M13].
+      * exists m', l'. split; [exact Hrun|]. destruct M as [M1 M2 M3 M4 Mm M5 M6 M7 M8 Mc Ms M9 M10 M11 M12 M13 Mst Mrw].
         constructor; auto; try congruence.
         -- rewrite M2, G2, <- app_assoc. reflexivity.
         -- intros x. rewrite M3, G4, cnt_app, !cnt_cons, !cnt_nil. lia.
@@ -374,6 +390,8 @@ Proof.
         -- intros Hs. apply M5. rewrite G3. apply Forall_app. split; [exact Hs|constructor; [reflexivity|constructor]].
         -- intros Hs. apply Ms. rewrite G3. apply Forall_app. split; [exact Hs|]. constructor; [|constructor]. intros _. exists t. split; [exact Ht|reflexivity].
         -- destruct M9 as [app Happ]. exists ([s] ++ app). rewrite Happ, G3, <- app_assoc. reflexivity.
+        -- intros Hs. apply Mst. unfold start0. rewrite G3. apply Forall_app. split; [exact Hs|constructor; [exact Hst0|constructor]].
+        -- intros _. apply Mrw. apply rwp_append.
 Qed.
 
 (* ---------------------------------------------------------------------------------------- *)
@@ -423,7 +441,9 @@ Record movedL (m : shm) (l : lbuf) (ids : list nat) (bytes : list byte) (m' : sh
   ml_slots : Forall (recyclable m) (slices l) -> Forall (recyclable m') (slices l');
   ml_prefix : exists app, slices l' = slices l ++ app;
   ml_pin : pinned l' = pinned l; ml_curp : curp l' = curp l; ml_rec : recycled l' = recycled l;
-  ml_leases : leases l' = leases l }.
+  ml_leases : leases l' = leases l;
+  ml_start : start0 (slices l) -> start0 (slices l');
+  ml_rwp : rwp l -> rwp l' }.
 
 Lemma movedL_refl m l : store_ok m -> WF m l -> movedL m l [] [] m l.
 Proof.
@@ -455,14 +475,14 @@ Proof.
       * intros x Hx. apply cnt_In in Hx. specialize (Hc1 x). apply cnt_notin. lia.
       * apply Hshm. discriminate.
       * pose proof (chain_ids_bound m o ids bytes Hc Hnd1). lia.
-      * rewrite Hrun. cbn [bind]. destruct M as [M1 M2 M3 M4 Mm M5 M6 M7 M8 Mc Ms M9 M10 M11 M12 M13].
+      * rewrite Hrun. cbn [bind]. destruct M as [M1 M2 M3 M4 Mm M5 M6 M7 M8 Mc Ms M9 M10 M11 M12 M13 Mst Mrw].
         assert (Hp1 : pend_ok m1 ps idss' bs').
         { apply (pend_ok_frame m); [|exact Hp']. intros x Hx. apply cnt_In in Hx. specialize (Hc1 x).
           apply M4; apply cnt_notin; lia. }
         destruct (IH idss' bs' m1 l1 M6 M1 Hp1) as [m2 [l2 [Hrun2 [N Nshm]]]].
         -- intros x. specialize (M3 x). specialize (Hc1 x). lia.
         -- intros _. apply M5. apply Hshm. discriminate.
-        -- exists m2, l2. split; [exact Hrun2|]. destruct N as [N1 N2 N3 N4 Nm N6 N7 N8 Nc Ns N9 N10 N11 N12 N13]. split.
+        -- exists m2, l2. split; [exact Hrun2|]. destruct N as [N1 N2 N3 N4 Nm N6 N7 N8 Nc Ns N9 N10 N11 N12 N13 Nst Nrw]. split.
            ++ constructor.
               ** exact N1.
               ** rewrite N2, M2, <- app_assoc. reflexivity.
@@ -484,6 +504,8 @@ Proof.
               ** congruence.
               ** congruence.
               ** congruence.
+              ** intros Hs. apply Nst, Mst, Hs.
+              ** intros Hs. apply Nrw, Mrw, Hs.
            ++ intros Hnofb Hs. apply Nshm; [intros d Hin; apply (Hnofb d); right; exact Hin|apply M5; exact Hs].
     + (* a fallback slice *)
       cbn [move_to]. cbn [concat] in *.
@@ -495,7 +517,7 @@ Proof.
       destruct (IH [] bs' m l1 Hok G1 Hp') as [m2 [l2 [Hrun2 [N Nshm]]]].
       * intros x. rewrite Hoffs1. apply Hown.
       * congruence.
-      * exists m2, l2. split; [exact Hrun2|]. destruct N as [N1 N2 N3 N4 Nm N6 N7 N8 Nc Ns N9 N10 N11 N12 N13]. split.
+      * exists m2, l2. split; [exact Hrun2|]. destruct N as [N1 N2 N3 N4 Nm N6 N7 N8 Nc Ns N9 N10 N11 N12 N13 Nst Nrw]. split.
         -- constructor.
            ++ exact N1.
            ++ rewrite N2, G2, <- app_assoc. reflexivity.
@@ -512,5 +534,7 @@ Proof.
            ++ rewrite N11. unfold l1, append_slice. reflexivity.
            ++ rewrite N12. unfold l1, append_slice. reflexivity.
            ++ rewrite N13. unfold l1, append_slice. reflexivity.
+           ++ intros Hs. apply Nst. unfold start0. rewrite Hsl1. apply Forall_app. split; [exact Hs|constructor; [reflexivity|constructor]].
+           ++ intros _. apply Nrw. apply rwp_append.
         -- intros Hnofb. exfalso. apply (Hnofb (fallback_slice d)). left. reflexivity.
 Qed.
